@@ -1,6 +1,6 @@
 //@unit reset_seq  props=C09  min_verified=4
 // C09 ("whatever addresses the devices held before"): MainDevice::reset_subdevices (src/maindevice.rs) extracted WHOLE, with
-// RegisterAddress::fmmu / sync_manager and Command::bwr: every device is sent back to INIT with the error acknowledged, ALL 16 FMMU
+// RegisterAddress::fmmu / sync_manager, AlControl::reset and Command::bwr: every device is sent back to INIT with the error acknowledged, ALL 16 FMMU
 // and ALL 16 sync-manager records are blanked with the packed length of THEIR record type, the eight DC registers are blanked with
 // their own widths, and the two control-loop parameters get the ETG1020 values.  `blank_memory` is seen through the contract that
 // unit group_cycle proves on the extracted function (LEN zero bytes broadcast-written at `start`, answered); the broadcast writes are
@@ -22,18 +22,26 @@ impl Fmmu { pub const PACKED_LEN: usize = 16; }
 pub struct SyncManager { pub _p: u8 }
 impl SyncManager { pub const PACKED_LEN: usize = 8; }
 
-/// stand-in for crate::al_control::AlControl: only "is the reset request (INIT + acknowledge error)" is observed
-pub struct AlControl { pub is_reset: bool }
-impl AlControl {
-    /// real body: `Self { state: Init, error: true, ..Default::default() }` (its encoding: C19 wire_al_control)
+/// the opaque SubDeviceState of prelude/opaque_payloads.rs with the one variant this unit names (INIT = 0x01, src/subdevice_state.rs)
+#[allow(non_upper_case_globals)]
+impl SubDeviceState { pub const Init: SubDeviceState = SubDeviceState(0x01); }
+/*@type file=src/al_control.rs name=AlControl derive="Clone, Copy, PartialEq, Eq, Debug" @*/
+/// `#[derive(Default)]` of AlControl - the language-defined derive: the state's `#[default]` variant, flags false
+impl Default for AlControl {
     #[verifier::external_body]
-    pub fn reset() -> (r: Self) ensures r.is_reset { unimplemented!() }
+    fn default() -> (r: Self) ensures !r.error, !r.id_request { unimplemented!() }
 }
+impl AlControl {
+/*@fn file=src/al_control.rs impl="impl AlControl" name=reset props=C09
+    ensures r.state == SubDeviceState::Init, r.error, !r.id_request
+@*/
+}
+pub open spec fn is_reset(a: AlControl) -> bool { a.state == SubDeviceState::Init && a.error && !a.id_request }
 
 /// what a broadcast write carried: a 16-bit value, or the AL reset request (-1) / another AL request (-2)
 pub trait RVal { spec fn code(&self) -> int; }
 impl RVal for u16 { open spec fn code(&self) -> int { *self as int } }
-impl RVal for AlControl { open spec fn code(&self) -> int { if self.is_reset { -1int } else { -2int } } }
+impl RVal for AlControl { open spec fn code(&self) -> int { if is_reset(*self) { -1int } else { -2int } } }
 
 /// "a broadcast write (BWR, address 0) of the value with this code to `register` was sent"
 pub uninterp spec fn bcast(register: u16, code: int) -> bool;
